@@ -585,3 +585,331 @@ def prog_from_coq(text):
         return r
 
     return block()
+
+
+# ================================================================ nested scopes (Model/ExecNested.v)
+NESTED_FUNCS = [60, 61]           # names of nested functions (disjoint from callees / helpers / aliases)
+for _i in NESTED_FUNCS:
+    _INV.setdefault(ident(_i), _i)
+
+
+def gen_ncall(rng):
+    if rng.random() < 0.75:
+        return ('nfwd', rng.choice(CALLEES), rng.randrange(0, 3), rng.sample(KWNAMES, rng.randrange(0, 3)),
+                rng.random() < 0.8, rng.random() < 0.8)
+    return ('nother', rng.choice(HELPERS))
+
+
+def gen_nprogram(rng):
+    """top-level statements: flat leaves (no lambda mutation), def h(): <calls>, h(), (lambda: call)()"""
+    out = []
+    defined = []
+    for _ in range(rng.randrange(2, 9)):
+        r = rng.random()
+        if r < 0.5:
+            budget = [1]
+            s = gen_stmt(rng, 1, budget)
+            while s[0] == 'lam':
+                s = gen_stmt(rng, 1, budget)
+            out.append(('leaf', s))
+        elif r < 0.68:
+            h = rng.choice(NESTED_FUNCS)
+            out.append(('def', h, [gen_ncall(rng) for _ in range(rng.randrange(0, 3))]))
+            defined.append(h)
+        elif r < 0.86 and defined:
+            out.append(('callh', rng.choice(defined)))
+        else:
+            out.append(('nlam', gen_ncall(rng)))
+    return out
+
+
+def coq_ncall(c):
+    b = lambda x: 'true' if x else 'false'
+    if c[0] == 'nfwd':
+        return '(NCFwd %d %d%%nat [%s] %s %s)' % (c[1], c[2], '; '.join(str(k) for k in c[3]), b(c[4]), b(c[5]))
+    return '(NCOther %d)' % c[1]
+
+
+def coq_nblock(l):
+    parts = []
+    for x in l:
+        if x[0] == 'leaf':
+            parts.append('(NLeaf %s)' % coq_stmt(x[1]))
+        elif x[0] == 'def':
+            parts.append('(NDef %d [%s])' % (x[1], '; '.join(coq_ncall(c) for c in x[2])))
+        elif x[0] == 'callh':
+            parts.append('(NCallH %d)' % x[1])
+        else:
+            parts.append('(NLam %s)' % coq_ncall(x[1]))
+    return '[' + '; '.join(parts) + ']'
+
+
+def ncall_src(c):
+    if c[0] == 'nfwd':
+        parts = ['0'] * c[2]
+        if c[4]:
+            parts.append('*args')
+        parts += ['%s=0' % ident(k) for k in c[3]]
+        if c[5]:
+            parts.append('**kwargs')
+        return '%s(%s)' % (ident(c[1]), ', '.join(parts))
+    return '%s(0)' % ident(c[1])
+
+
+def render_n(prog, assign):
+    """-> (source, {(scope, lineno): site}, {site: (nlit, kw names)})   scope: 'wrapper' | nested
+    function name | '<lambda>'"""
+    # number of main-scope calls of the whole program
+    def mcalls(x):
+        if x[0] == 'leaf':
+            return len(fwd_sites([x[1]])) + sum(1 for _ in _other_calls([x[1]]))
+        return 0 if x[0] == 'def' else 1
+    M = sum(mcalls(x) for x in prog)
+    lines = ['def wrapper(*args, **kwargs):']
+    sites = {}
+    fw = {}
+    off = [0]
+    noff = [0]
+    for x in prog:
+        if x[0] == 'leaf':
+            src, st = render([x[1]], assign)
+            body = src.split('\n')[1:]
+            base = len(lines)
+            leaf_fw = fwd_sites([x[1]])
+            for ln, s in st.items():
+                sites[('wrapper', base + ln - 1)] = off[0] + s
+            for s, v in leaf_fw.items():
+                fw[off[0] + s] = v
+            lines += [b for b in body if b != '']
+            off[0] += mcalls(x)
+        elif x[0] == 'def':
+            lines.append('    def %s():' % ident(x[1]))
+            if not x[2]:
+                lines.append('        pass')
+            for c in x[2]:
+                sites[(ident(x[1]) + '@%d' % (len(lines) + 1), len(lines) + 1)] = M + noff[0]
+                if c[0] == 'nfwd':
+                    fw[M + noff[0]] = (c[2], set(ident(k) for k in c[3]))
+                lines.append('        ' + ncall_src(c))
+                noff[0] += 1
+        elif x[0] == 'callh':
+            sites[('wrapper', len(lines) + 1)] = off[0]
+            lines.append('    %s()' % ident(x[1]))
+            off[0] += 1
+        else:
+            sites[('wrapper', len(lines) + 1)] = off[0]
+            sites[('<lambda>', len(lines) + 1)] = M + noff[0]
+            if x[1][0] == 'nfwd':
+                fw[M + noff[0]] = (x[1][2], set(ident(k) for k in x[1][3]))
+            lines.append('    (lambda: %s)()' % ncall_src(x[1]))
+            off[0] += 1
+            noff[0] += 1
+    return '\n'.join(lines) + '\n', sites, fw
+
+
+def _other_calls(block):
+    for s in block:
+        if s[0] in ('meth', 'pass', 'other', 'lam'):
+            yield s
+        elif s[0] == 'if':
+            for y in _other_calls(s[1]):
+                yield y
+            for y in _other_calls(s[2]):
+                yield y
+
+
+def npaths(prog):
+    """path assignments in the order of exec_n's outcomes"""
+    out = [{}]
+    for x in prog:
+        if x[0] == 'leaf':
+            ps = paths_stmt(x[1])
+            out = [dict(list(a.items()) + list(b.items())) for a in out for b in ps]
+    return out
+
+
+def execute_n(source, sites, fw):
+    """as `execute`, with nested frames: -> (site sequence, {position: (star_ok, dstar_ok)}, exception, final)"""
+    A = (_Sentinel(), _Sentinel())
+    K = {'k0': _Sentinel(), 'k1': _Sentinel()}
+    K0 = dict(K)
+    seq = []
+    received = {}
+    final = [None]
+    cnt = [0]
+
+    def site_of(frame):
+        name = frame.f_code.co_name
+        if name == 'wrapper' or name == '<lambda>':
+            return sites.get((name, frame.f_lineno))
+        return sites.get((name + '@%d' % frame.f_lineno, frame.f_lineno))
+
+    def stub(*a, **k):
+        fr = sys._getframe(1)
+        pos = len(seq) - 1
+        if fr.f_code.co_filename == '<exec-grammar>' and pos >= 0 and site_of(fr) == seq[pos]:
+            received[pos] = (a, k)
+        return None
+
+    def helper(*a, **k):
+        stub_fr = sys._getframe(1)
+        pos = len(seq) - 1
+        if stub_fr.f_code.co_filename == '<exec-grammar>' and pos >= 0 and site_of(stub_fr) == seq[pos]:
+            received[pos] = (a, k)
+        cnt[0] += 1
+        if a and isinstance(a[0], dict) and cnt[0] % 2:
+            a[0]['mutated'] = 1
+        return None
+
+    ns = {}
+    for i in CALLEES:
+        ns[ident(i)] = stub
+    for i in HELPERS:
+        ns[ident(i)] = helper
+    exec(compile(source, '<exec-grammar>', 'exec'), ns)
+    wrapper = ns['wrapper']
+
+    def tracer(frame, event, arg):
+        if frame.f_code.co_filename != '<exec-grammar>':
+            return None
+        if event == 'line':
+            s = site_of(frame)
+            if s is not None:
+                seq.append(s)
+        elif event == 'return' and frame.f_code is wrapper.__code__:
+            loc = frame.f_locals
+            la = loc.get('args')
+            lk = loc.get('kwargs')
+            final[0] = (isinstance(la, tuple) and len(la) == len(A) and all(x is y for x, y in zip(la, A)),
+                        isinstance(lk, dict) and list(lk.items()) == list(K0.items()) and all(lk[x] is K0[x] for x in K0))
+        return tracer
+
+    exc = None
+    old = sys.gettrace()
+    sys.settrace(tracer)
+    try:
+        try:
+            wrapper(*A, **K)
+        except Exception as e:  # noqa: BLE001
+            exc = type(e).__name__
+    finally:
+        sys.settrace(old)
+    verdict = {}
+    for pos, (a, k) in received.items():
+        nl, kws = fw.get(seq[pos], (None, None))
+        if nl is None:
+            continue
+        star = a[nl:]
+        star_ok = len(star) == len(A) and all(x is y for x, y in zip(star, A))
+        rest = {x: v for x, v in k.items() if x not in kws}
+        dstar_ok = list(rest.keys()) == list(K0.keys()) and all(rest[x] is K0[x] for x in K0)
+        verdict[pos] = (star_ok, dstar_ok)
+    return seq, verdict, exc, (final[0] if exc is None else None)
+
+
+def run_nested(seed, count):
+    """the same three comparisons (TREE, FLAGS, EXEC) for the grammar of Model/ExecNested.v"""
+    rng = random.Random(seed * 104729 + 5)
+    progs = [gen_nprogram(rng) for _ in range(count)]
+    pre = 'From Sigtools.Model Require Import Exec ExecNested.\nOpen Scope N_scope.\n'
+    answers = coq_eval(pre, ['exec_report_n 1 2 %s' % coq_nblock(p) for p in progs], name='execncases')
+    stats = {'nested_programs': count, 'nested_paths': 0, 'nested_events': 0, 'nested_pristine_confirmed': 0,
+             'nested_deferred_calls': 0, 'nested_exceptions': 0}
+    bad = []
+    for p, ans in zip(progs, answers):
+        nbody, enc, flags, outs = parse_report(parse_nat_list(ans))
+        paths = npaths(p)
+        src0, sites0, fw0 = render_n(p, paths[0])
+        tree = ast.parse(src0).body[0]
+        real = []
+        for st in tree.body:
+            enc_py_n(st, real)
+        if real != enc or nbody != len(tree.body):
+            bad.append({'kind': 'nested-tree', 'program': coq_nblock(p), 'source': src0, 'model_tree': enc, 'real_tree': real})
+            continue
+        try:
+            fi = impl_flags(tree)
+        except Exception as e:  # noqa: BLE001
+            fi = 'RAISED ' + type(e).__name__
+        if flags is None or fi != flags:
+            bad.append({'kind': 'nested-flags', 'program': coq_nblock(p), 'source': src0, 'model_flags': flags, 'impl_flags': fi})
+            continue
+        stats['nested_deferred_calls'] += sum(len(x[2]) if x[0] == 'def' else (1 if x[0] == 'nlam' else 0) for x in p)
+        if len(paths) != len(outs):
+            bad.append({'kind': 'nested-paths', 'program': coq_nblock(p), 'source': src0,
+                        'model_outcomes': len(outs), 'real_paths': len(paths)})
+            continue
+        for path, (pa, pk, evs) in zip(paths, outs):
+            src, sites, fw = render_n(p, path)
+            seq, verdict, exc, final = execute_n(src, sites, fw)
+            stats['nested_paths'] += 1
+            stats['nested_events'] += len(evs)
+            msites = [e[0] for e in evs]
+            problem = None
+            if exc is None:
+                if seq != msites:
+                    problem = 'call sites executed %r, model %r' % (seq, msites)
+                elif final is not None and ((pa and not final[0]) or (pk and not final[1])):
+                    problem = 'model final state pristine=%r, really %r' % ((pa, pk), final)
+            else:
+                stats['nested_exceptions'] += 1
+                if seq != msites[:len(seq)]:
+                    problem = 'call sites executed before %s %r, model %r' % (exc, seq, msites)
+            if problem is None:
+                for pos, (site, a, k) in enumerate(evs):
+                    if a != 2 and k != 2:
+                        continue
+                    if pos >= len(seq):
+                        break
+                    v = verdict.get(pos)
+                    if v is None:
+                        if exc is not None and pos == len(seq) - 1:
+                            if a != 1 and k != 1:
+                                problem = ('model: callee of site %d receives the untouched object(s); really the '
+                                           'call raised %s' % (site, exc))
+                        else:
+                            problem = 'site %d: the callee was not reached' % site
+                        break
+                    if (a == 2 and not v[0]) or (k == 2 and not v[1]):
+                        problem = ('model: callee of site %d receives the untouched %s; really it did not'
+                                   % (site, '*args' if a == 2 and not v[0] else '**kwargs'))
+                        break
+                    stats['nested_pristine_confirmed'] += (a == 2) + (k == 2)
+            if problem:
+                bad.append({'kind': 'nested-exec', 'program': coq_nblock(p), 'source': src, 'problem': problem})
+                break
+    return stats, bad
+
+
+def enc_py_n(node, out):
+    """enc_py extended with nested FunctionDef (no parameters)"""
+    if isinstance(node, ast.FunctionDef):
+        a = node.args
+        pos = list(a.posonlyargs) + list(a.args)
+        out += [5, len(pos)] + [_INV[x.arg] for x in pos] + [len(a.kwonlyargs)] + [_INV[x.arg] for x in a.kwonlyargs]
+        out += [0 if a.vararg is None else _INV[a.vararg.arg] + 1, 0 if a.kwarg is None else _INV[a.kwarg.arg] + 1,
+                len(node.body)]
+        for st in node.body:
+            enc_py_n(st, out)
+        return
+    if isinstance(node, (ast.Name, ast.Attribute, ast.Starred, ast.keyword, ast.Lambda)):
+        return enc_py(node, out)
+    if isinstance(node, ast.Call):
+        out.append(2)
+        enc_py_n(node.func, out)
+        out.append(len(node.args))
+        for a in node.args:
+            enc_py_n(a, out)
+        out.append(len(node.keywords))
+        for k in node.keywords:
+            enc_py_n(k, out)
+        return
+    children = []
+    for _f, value in ast.iter_fields(node):
+        if isinstance(value, list):
+            children.extend(v for v in value if isinstance(v, ast.AST))
+        elif isinstance(value, ast.AST):
+            children.append(value)
+    out += [7, len(children)]
+    for c in children:
+        enc_py_n(c, out)
